@@ -382,3 +382,7 @@ mod tests {
         assert!(!pool.is_complete());
     }
 }
+
+#[cfg(all(test, feature = "pendulum_project_ntpd_rs_verif"))]
+#[path = "../../../../../verif/harness/ntpd/daemon_spawn_pool.rs"]
+mod verif_daemon_spawn_pool;
